@@ -133,3 +133,18 @@ Theorem C18_code_array_round_plan : forall al definite e bs k a c,
   Gcbor_serialize_array_loop0 al (dst_z definite) (Z.of_N e) (Z.of_N bs) (Z.of_N k) (Z.of_N a) (Z.of_N c) =
   array_round_plan definite e k a bs c.
 Proof. exact bridge_plan_serialize_array_round. Qed.
+
+(* "every predicate or getter that does not hand out a new reference" as written in C: in the call graph regenerated from the
+   AST of this run, no function that stores through memory (a pointer, a member or element of a pointed-to object, a variable
+   with static storage) is reachable from any of the 53 predicates / getters, none of them calls through a pointer, and the only
+   functions without a body under src/ they reach are side-effect-free builtins (theories/Bridge_inventory.v) *)
+From CB Require Import Bridge_inventory.
+From CBGen Require Import Gen_inventory.
+Theorem C18_getters_store_free :
+  match gen_callgraph with [] => true | _ => forallb getter_pure readonly_getters end = true.
+Proof. exact bridge_readonly_getters. Qed.
+Print Assumptions C18_getters_store_free.
+(* non-vacuity: the same test rejects cbor_array_get (which hands out a reference: cbor_incref stores) and sees the allocator from cbor_load *)
+Example C18_getters_store_free_nonvacuous :
+  match gen_callgraph with [] => true | _ => negb (fn_allocfree "cbor_load") && negb (getter_pure "cbor_array_get") end = true.
+Proof. exact cg_closure_sees_the_allocator. Qed.
